@@ -567,7 +567,7 @@ pub fn run(run: &Run) {
     run.set_rule(&format!(
         "every skeleton <= {max} statements (braced bodies, blocks, for) x every assignment of the \
          {ATOMS}-atom alphabet {{x=1, x=x+1, y=x, var x=2 (redeclare), a[0]=x, a[y]=y, x=n, n=x+a[1], var z}} \
-         to the atom slots x every assignment of {{n>0, x==1}} to the conditions x array `a` initialised / declared only, as function; \
+         to the atom slots x every assignment of {{n>0, x==1}} to the conditions x array `a` initialised / declared only, as function (and as template below the statement bound); \
          static audit + every path with each block visited <= {} times; non-trivial = program lifts \
          and has more than one path",
         unroll + 1
@@ -583,9 +583,15 @@ pub fn run(run: &Run) {
             let atoms = digits(ac, ATOMS, na);
             for cc in 0..cond_combos {
                 let conds = digits(cc, CONDS, nc);
-              for init_array in [true, false] {
-                let case = json!({"kind": "ssa", "max_stmts": max, "index": i, "atoms": atoms, "conds": conds, "unroll": unroll, "init_array": init_array});
-                let def = build(skel, &atoms, &conds, true, init_array);
+              // Functions with the array initialised / only declared; templates (whose parameters
+              // are declared differently) for skeletons below the statement bound.
+              let stmts: usize = na + nc;
+              for (is_function, init_array) in [(true, true), (true, false), (false, true)] {
+                if !is_function && stmts >= max {
+                    continue;
+                }
+                let case = json!({"kind": "ssa", "max_stmts": max, "index": i, "atoms": atoms, "conds": conds, "unroll": unroll, "init_array": init_array, "template": !is_function});
+                let def = build(skel, &atoms, &conds, is_function, init_array);
                 run.watch(&case);
                 let (violations, outcome) = check_def(&def, unroll, &case);
                 run.eval(1);
@@ -681,7 +687,7 @@ pub fn replay(case: &Value) -> Vec<Violation> {
     let skels = enumerate(opts(max));
     match skels.get(index) {
         Some(skel) => check_def(
-            &build(skel, &get("atoms"), &get("conds"), true, case["init_array"].as_bool().unwrap_or(true)),
+            &build(skel, &get("atoms"), &get("conds"), !case["template"].as_bool().unwrap_or(false), case["init_array"].as_bool().unwrap_or(true)),
             unroll,
             case,
         )
